@@ -107,6 +107,10 @@ func (g *rangeGen) genOneof(field *protogen.Field) {
 	g.P("switch o := x.", field.Oneof.GoName, ".(type) {")
 	for _, oneofField := range field.Oneof.Fields {
 		g.P("case *", g.QualifiedGoIdent(oneofField.GoIdent), ":")
+		// a typed-nil wrapper means the oneof is unset
+		g.P("if o == nil {")
+		g.P("break")
+		g.P("}")
 		g.P("v := ", "o.", oneofField.GoName)
 		switch oneofField.Desc.Kind() {
 		case protoreflect.MessageKind:
